@@ -102,6 +102,7 @@ def set_encoding(encoding: str) -> None:
     global _target_encoding, _use_dec_special  # noqa: PLW0603  # noqa: PLW0603  # pylint: disable=global-statement
 
     if encoding in {"utf-8", "utf8", "utf"}:
+        encoding = "utf-8"  # the one spelling get_encoding() reports and the display modules compare with
         str_util.set_byte_encoding("utf8")
 
         _use_dec_special = False
